@@ -533,7 +533,14 @@ func (tx *FnTx) unop(x *ssa.UnOp, st *State) *State {
 	case token.MUL:
 		v := tx.load(x.X, st)
 		t := tx.define(x, v.S)
-		tx.assumeTyped(t, x.Type(), st)
+		bound := st.alloc
+		if l := tx.locOfPointer(x.X, st); l != nil && l.Kind == locHeap {
+			// a component not written since its heap epoch began only holds objects older than that epoch
+			bound = tx.h.loadBound(st, l.Comp)
+		}
+		if inv := tx.typeInv(t, x.Type(), bound, 0); inv != "true" {
+			tx.assume(inv)
+		}
 		return st
 	case token.NOT:
 		tx.define(x, snot(tx.val(x.X).S))
